@@ -15,7 +15,10 @@ Inductive C15case :=
 | OverlapChk (s e cs ce pn pd tthr : Z) (incl : bool) (out : bool)
 | Invert (input : list row) (mn mx : option Z) (out : res (list row))
 | ValidateI (t : itier) (out : bool)
-| ValidateP (t : ptier) (out : bool).
+| ValidateP (t : ptier) (out : bool)
+(* tier.timestamps *)
+| TsI (t : itier) (ts : list Z)
+| TsP (t : ptier) (ts : list Z).
 
 Definition values_at (t : ptier) (data : list row) (fuzzy : bool) : res (list (option row)) :=
   let sorted := isort rleb data in
@@ -37,6 +40,8 @@ Definition C15corr (c : C15case) : bool :=
   | Invert input mn mx out => res_eqb rows_eqb (invert_list input mn mx) out
   | ValidateI t out => Bool.eqb (validate_i t) out
   | ValidateP t out => Bool.eqb (validate_p t) out
+  | TsI t ts => list_eqb Z.eqb (timestamps_i t) ts
+  | TsP t ts => list_eqb Z.eqb (timestamps_p t) ts
   end.
 
 (* ---- definitions from the property text ---- *)
@@ -123,6 +128,13 @@ Definition C15oracle (c : C15case) : bool :=
       Bool.eqb out (sorted_disjb (ients t) && forallb (in_spanb (imin t) (imax t)) (ients t))
   | ValidateP t out =>
       Bool.eqb out (psortedb (pents t) && forallb (fun p => (pmin t <=? ptime p) && (ptime p <=? pmax t)) (pents t))
+  | TsI t ts =>
+      (* the sorted set of all boundary times of the tier as it is now *)
+      sorted_strictb ts && forallb (fun x => existsb (Z.eqb x) ts) (bounds (ients t))
+      && forallb (fun x => existsb (Z.eqb x) (bounds (ients t))) ts
+  | TsP t ts =>
+      sorted_strictb ts && forallb (fun x => existsb (Z.eqb x) ts) (map ptime (pents t))
+      && forallb (fun x => existsb (Z.eqb x) (map ptime (pents t))) ts
   end.
 
 Definition C15hyp (c : C15case) : bool :=
